@@ -59,6 +59,7 @@ type lxCase struct {
 	Col      bool        `json:"col"`
 	NoBt     bool        `json:"nobt"`
 	NTok     int         `json:"ntok"`
+	Shift    bool        `json:"shift"` // a token without a rule is declared first: token numbers differ from rule numbers
 
 	Width  []int   `json:"width"`
 	Canon  []int   `json:"canon"`
@@ -129,6 +130,9 @@ func (c *lxCase) render(a lexAlphabet) string {
 			sb.WriteString(a.Pat[x-1])
 		}
 		return sb.String()
+	}
+	if c.Shift {
+		b.WriteString("T999:\n")
 	}
 	for i := range c.Rules {
 		r := &c.Rules[i]
@@ -352,6 +356,17 @@ func c11Gen(args []string) error {
 			tok++
 			c.Rules = append(c.Rules, rule)
 		}
+		// a rule that is a proper prefix of a longer one: scanning the longer one's prefixes has to fall back
+		if r.Intn(3) == 0 {
+			x, y, z := 1+r.Intn(nsym-2), 1+r.Intn(nsym-2), 1+r.Intn(nsym-2)
+			short := &reAST{K: "lit", C: []int{x}}
+			long := &reAST{K: "cat", Sub: []*reAST{{K: "lit", C: []int{x}}, {K: "cat", Sub: []*reAST{{K: "plus", Sub: []*reAST{{K: "lit", C: []int{y}}}}, {K: "lit", C: []int{z}}}}}}
+			c.Rules = append(c.Rules, lxRule{Re: &reAST{K: "plus", Sub: []*reAST{short}}, Prio: nr + 3, Action: len(c.Rules) + 1, SC: c.Rules[0].SC, Tok: tok, NewState: -1})
+			tok++
+			c.Rules = append(c.Rules, lxRule{Re: long, Prio: nr + 4, Action: len(c.Rules) + 1, SC: c.Rules[0].SC, Tok: tok, NewState: -1})
+			tok++
+		}
+		c.Shift = r.Intn(3) == 0
 		// whitespace rule (mostly), so that lines and columns are exercised
 		if r.Intn(5) > 0 {
 			re := &reAST{K: "plus", Sub: []*reAST{{K: "class", C: []int{nsym - 1, nsym}}}}
@@ -370,8 +385,8 @@ func c11Gen(args []string) error {
 				}
 			}
 			letters := []int{1, 2}
-			if c.Mode == "fold" || c.Mode == "foldbytes" {
-				letters = []int{1, 2, 3, 4}
+			if c.Mode == "rune" {
+				letters = []int{1, 2, 3, 5} // a b é 中: keywords with multi-byte characters
 			}
 			re := &reAST{K: "plus", Sub: []*reAST{{K: "class", C: letters}}}
 			cls := lxRule{Re: re, Prio: -5, Action: len(c.Rules) + 1, SC: sc(), Tok: tok, Class: true, NewState: -1}
@@ -410,7 +425,11 @@ func c11Gen(args []string) error {
 					}
 					fallthrough
 				default:
-					t = append(t, sampleRE(r, c.Rules[r.Intn(len(c.Rules))].Re, nsym, 5)...)
+					w := sampleRE(r, c.Rules[r.Intn(len(c.Rules))].Re, nsym, 5)
+					if len(w) > 1 && r.Intn(3) == 0 {
+						w = w[:len(w)-1]
+					}
+					t = append(t, w...)
 				}
 				if r.Intn(3) == 0 {
 					t = append(t, nsym-r.Intn(2))
